@@ -92,3 +92,15 @@ func CreateMergePatch(a, b []byte) (out []byte, err error) {
 	return
 }
 func Equal(a, b []byte) (r bool) { shared(func() { r = jsonpatch.Equal(a, b) }); return }
+
+// ApplyDecoded applies an already decoded patch under the package settings of o.
+func ApplyDecoded(p Patch, doc []byte, o Opts, indent string) (out []byte, err error) {
+	withSettings(o.Limit, o.Neg, func() {
+		if indent == "" {
+			out, err = p.Apply(doc)
+		} else {
+			out, err = p.ApplyIndent(doc, indent)
+		}
+	})
+	return
+}
